@@ -689,6 +689,15 @@ pub fn c11_scenarios(tier: Tier) -> Vec<Scenario> {
     c.post_create = vec![hook(false, SYNC_MENU), hook(true, FAULTY)];
     let sc2 = ConcScenario::new(c, vec![vec![get(), Op::Release], vec![get(), Op::Release], vec![Op::Status]], base);
     v.push(conc_paid("status-vs-failing-post-create/ms2", "failing / panicking post_create hooks (the 0.9.5 overflow) observed by status()", if b.thorough { 3 } else { 2 }, b.f, sc2));
+    // status() itself interleaved with the operations that rewrite several
+    // figures at once
+    let mut sc = ConcScenario::new(PoolCfg::simple(2), vec![vec![Op::Resize(1), Op::Resize(3)], vec![Op::Status, Op::Status], vec![get(), Op::Release]], base);
+    sc.prefill = 2;
+    v.push(conc_paid("status-vs-resize/ms2", "status() while a shrink and a grow run next to a getter", b.p, 0, sc.clone()));
+    sc.actors = vec![vec![Op::Close], vec![Op::Status, Op::Status], vec![get(), Op::Release]];
+    v.push(conc_paid("status-vs-close/ms2", "status() while close() runs next to a getter", b.p, 0, sc.clone()));
+    sc.actors = vec![vec![Op::Retain], vec![Op::Status, Op::Status], vec![get(), Op::Take]];
+    v.push(conc_paid("status-vs-retain/ms2", "status() while retain() runs next to a get + take", b.p, 0, sc));
     // thread level: retain() (which rewrites the size counter) racing with the
     // other writers of it - take, create, a failing recycle, resize
     let mut sc = ConcScenario::new(PoolCfg::simple(2), vec![vec![Op::Retain], vec![get(), Op::Take]], base);
